@@ -116,6 +116,7 @@ func safeParse(f func() (mpath.Operation, error)) (out parseOut) {
 //	1  the last readable bytes TOGETHER with the error, then io.EOF
 //	2  the last readable bytes together with the error, the error again on every later Read
 //	3  (0, err) once, then io.EOF
+//	4  like 0 and 5 like 3, the error being io.ErrUnexpectedEOF (an error value of the io package itself)
 type planReader struct {
 	data   []byte
 	pos    int
@@ -137,11 +138,15 @@ func (r *planReader) Read(p []byte) (int, error) {
 	if n > len(p) {
 		n = len(p)
 	}
+	fault := errInjected
+	if r.mode >= 4 {
+		fault = io.ErrUnexpectedEOF // the fault is whatever error the reader's source produced: also one of io's own values
+	}
 	if r.failed {
-		if r.mode == 1 || r.mode == 3 {
+		if r.mode == 1 || r.mode == 3 || r.mode == 5 {
 			return 0, io.EOF
 		}
-		return 0, errInjected
+		return 0, fault
 	}
 	if r.failAt >= 0 && r.pos+n > r.failAt {
 		k := r.failAt - r.pos
@@ -151,14 +156,14 @@ func (r *planReader) Read(p []byte) (int, error) {
 		if k > 0 {
 			copy(p, r.data[r.pos:r.pos+k])
 			r.pos += k
-			if r.mode == 0 || r.mode == 3 || r.pos < r.failAt {
+			if r.mode == 0 || r.mode == 3 || r.mode == 4 || r.mode == 5 || r.pos < r.failAt {
 				return k, nil // the fault comes with the next Read
 			}
 			r.failed = true
-			return k, errInjected
+			return k, fault
 		}
 		r.failed = true
-		return 0, errInjected
+		return 0, fault
 	}
 	if r.pos >= len(r.data) {
 		return 0, io.EOF
@@ -264,7 +269,7 @@ func parseJob(payload string) string {
 	})
 	rep.FaultAt = faultAt
 	if faultAt >= 0 {
-		for mode := 0; mode < 4; mode++ {
+		for mode := 0; mode < 6; mode++ {
 			rep.Fault = safeParse(func() (mpath.Operation, error) {
 				return mpath.ParseReadSeeker(&planReader{data: data, plan: plan, failAt: faultAt, mode: mode})
 			})
